@@ -299,4 +299,30 @@ func solveAll(ctxOf func(o *Obligation) *Ctx, obls []*Obligation, cfg solveCfg) 
 		}(i, o)
 	}
 	wg.Wait()
+	// an obligation that no solver decided in the parallel pass is tried again on its own (nothing else running) with
+	// three times the time: a timeout under machine load must not be mistaken for a failed proof. At most 8 retries, so a
+	// change that breaks many obligations does not make the run much longer.
+	retried := 0
+	for i, o := range obls {
+		if o.Status != "unknown" || o.ExpectSat || o.Kind == "effect" || o.Kind == "shape" {
+			continue
+		}
+		if retried >= 8 {
+			break
+		}
+		retried++
+		prev := o.Answers
+		c2 := cfg
+		c2.timeout = cfg.timeout * 3
+		solveOne(ctxOf(o), o, c2, i)
+		if o.Status == "unknown" {
+			for k, v := range prev {
+				if _, ok := o.Answers[k]; !ok {
+					o.Answers[k] = v
+				}
+			}
+		} else {
+			o.Solver += " (second attempt, alone)"
+		}
+	}
 }
